@@ -101,6 +101,8 @@ impl<'s> ParseState<'s> {
 
     /// Add a new warning.
     pub fn add_warning(&mut self, kind: ParseErrorKind, location: Range<Position>) {
+        #[cfg(feature = "verif-hooks")]
+        self.verif_step("add_warning", 1);
         self.warnings.push(ParseError {
             path: self.path.to_string(),
             kind,
@@ -163,11 +165,15 @@ impl<'s> ParseState<'s> {
             self.cur_index = prev;
             self.line = prev_line;
             self.utf16_col = prev_utf16_col;
+            #[cfg(feature = "verif-hooks")]
+            self.verif_pos("rollback");
         }
         ret
     }
 
     fn skip_bytes(&mut self, count: usize) {
+        #[cfg(feature = "verif-hooks")]
+        self.verif_step("skip_bytes", count + 1);
         let skipped = &self.cur_str()[..count];
         self.cur_index += count;
         let line_wrap_count = skipped
@@ -205,6 +211,8 @@ impl<'s> ParseState<'s> {
     }
 
     pub(crate) fn peek_chars(&mut self) -> impl 's + Iterator<Item = char> {
+        #[cfg(feature = "verif-hooks")]
+        self.verif_step("peek", 1);
         if let Some(f) = self.auto_skip_whitespace.as_ref() {
             f(self);
         }
@@ -229,6 +237,8 @@ impl<'s> ParseState<'s> {
     }
 
     pub(crate) fn peek_str(&mut self, s: &str) -> bool {
+        #[cfg(feature = "verif-hooks")]
+        self.verif_step("peek", 1);
         if let Some(f) = self.auto_skip_whitespace.as_ref() {
             f(self);
         }
@@ -302,6 +312,8 @@ impl<'s> ParseState<'s> {
     }
 
     pub(crate) fn next(&mut self) -> Option<char> {
+        #[cfg(feature = "verif-hooks")]
+        self.verif_step("next", 1);
         if let Some(f) = self.auto_skip_whitespace.as_ref() {
             f(self);
         }
@@ -321,6 +333,8 @@ impl<'s> ParseState<'s> {
     }
 
     pub(crate) fn skip_whitespace(&mut self) -> Option<Range<Position>> {
+        #[cfg(feature = "verif-hooks")]
+        self.verif_step("skip_whitespace", 1);
         let mut start_pos = None;
         let s = self.cur_str();
         let mut i = s.char_indices();
@@ -381,10 +395,35 @@ impl<'s> ParseState<'s> {
 
     /// Get the current position.
     pub(crate) fn position(&self) -> Position {
+        #[cfg(feature = "verif-hooks")]
+        self.verif_pos("position");
         Position {
             line: self.line,
             utf16_col: self.utf16_col,
         }
+    }
+}
+
+#[cfg(feature = "verif-hooks")]
+impl<'s> ParseState<'s> {
+    fn verif_step(&self, kind: &'static str, weight: usize) {
+        crate::verif::emit(crate::verif::Event::ParseStep {
+            kind,
+            cur_index: self.cur_index,
+            len: self.whole_str.len(),
+            weight,
+            n_warnings: self.warnings.len(),
+        });
+    }
+
+    fn verif_pos(&self, kind: &'static str) {
+        crate::verif::emit(crate::verif::Event::Pos {
+            kind,
+            whole: self.whole_str,
+            cur_index: self.cur_index,
+            line: self.line,
+            utf16_col: self.utf16_col,
+        });
     }
 }
 
